@@ -499,14 +499,16 @@ raise ValueError."""
         const = (source_type.type_qualifier & TYPE_QUALIFIER_CONST)
         volatile = (source_type.type_qualifier & TYPE_QUALIFIER_VOLATILE)
 
-        if source_type.type == CTYPE_VOID:
-            return 'void'
-        elif source_type.type in [CTYPE_BASIC_TYPE,
-                                  CTYPE_TYPEDEF,
-                                  CTYPE_STRUCT,
-                                  CTYPE_UNION,
-                                  CTYPE_ENUM]:
-            value = source_type.name
+        if source_type.type in [CTYPE_VOID,
+                                CTYPE_BASIC_TYPE,
+                                CTYPE_TYPEDEF,
+                                CTYPE_STRUCT,
+                                CTYPE_UNION,
+                                CTYPE_ENUM]:
+            if source_type.type == CTYPE_VOID:
+                value = 'void'
+            else:
+                value = source_type.name
             if const:
                 value = 'const ' + value
             if volatile:
